@@ -289,13 +289,20 @@ pub fn bar_after(_args: &[String]) -> String {
 pub fn bar_forced(_args: &[String]) -> String {
     std::panic::set_hook(Box::new(|_| {}));
     let mut tried = 0u64;
-    for variant in 0..7 {
+    for variant in 0..14 {
+        let in_multi = variant >= 7;
+        let variant = variant % 7;
         let term = InMemoryTerm::new(H, W as u16);
-        let pb = mk(&term, Some(10), Some(1)).with_finish(ProgressFinish::AndLeave);
+        // second half: the bar is the only member of a MultiProgress on the 1 Hz target
+        let mp = if in_multi { Some(MultiProgress::with_draw_target(ProgressDrawTarget::term_like_with_hz(Box::new(term.clone()), 1))) } else { None };
+        let pb = match &mp {
+            Some(mp) => { let pb = mp.add(ProgressBar::new(10)); pb.set_style(style()); pb.with_finish(ProgressFinish::AndLeave) }
+            None => mk(&term, Some(10), Some(1)).with_finish(ProgressFinish::AndLeave),
+        };
         let mut m = Model { logs: vec![], msg: String::new(), pos: 0, len: Some(10), cleared: false };
-        let mut hist = vec!["bar len=10 on a 1 Hz target".to_string(), "60 x set_message(spam) + inc (exhausts the limiter)".to_string()];
-        for _ in 0..60 {
-            pb.set_message("spam");
+        let mut hist = vec![if in_multi { "bar len=10, only member of a MultiProgress on a 1 Hz target".to_string() } else { "bar len=10 on a 1 Hz target".to_string() }, "60 x set_message(spam<i>) + inc(0) (exhausts the limiter)".to_string()];
+        for i in 0..60 {
+            pb.set_message(format!("spam{}", i));       // every request asks for a different frame
             pb.inc(0);
         }
         pb.set_position(3);
@@ -613,6 +620,40 @@ pub fn multi_logs(_args: &[String]) -> String {
             }
         }
     }
+    // a member that was finished and cleared (its handle is alive, it renders nothing) prints: the line appears once
+    for cleared in 0..3usize {
+        for ti in 0..texts.len() {
+            for via_mp_too in [false, true] {
+                let term = InMemoryTerm::new(H, W as u16);
+                let mp = MultiProgress::with_draw_target(ProgressDrawTarget::term_like(Box::new(term.clone())));
+                let bars: Vec<ProgressBar> = (0..3).map(|i| {
+                    let pb = mp.add(ProgressBar::new(10));
+                    pb.set_style(ProgressStyle::with_template("{msg} {pos}").unwrap());
+                    pb.set_message(format!("bar{}", i));
+                    pb.tick();
+                    pb
+                }).collect();
+                bars[cleared].finish_and_clear();
+                let mut hist = vec!["three bars with template {msg} {pos}, all painted".to_string(), format!("bar{}.finish_and_clear()", cleared)];
+                let mut logs: Vec<String> = vec![];
+                let t = texts[ti];
+                bars[cleared].println(t); logs.push(t.to_string()); hist.push(format!("bar{}.println({:?})", cleared, t));
+                if via_mp_too { let _ = mp.println("second"); logs.push("second".into()); hist.push("mp.println(second)".into()); }
+                for round in 0..2 {
+                    for (i, pb) in bars.iter().enumerate() { if i != cleared { pb.inc(1); } }
+                    hist.push("inc(1) on the two live bars".into());
+                    tried += 1;
+                    let mut rows: Vec<String> = logs.iter().flat_map(|l| wrap(l)).collect();
+                    for i in 0..3 { if i != cleared { rows.push(format!("bar{} {}", i, round + 1)); } }
+                    let want = rows.join("\n");
+                    let got = term.contents();
+                    if got != want {
+                        return report("C03 a line printed through a finished-and-cleared member stays once, in order, above the bars; C02 the live bars once below", &hist, &want, &got, "multi_logs");
+                    }
+                }
+            }
+        }
+    }
     format!("{{\"found\": false, \"tried\": {}}}", tried)
 }
 
@@ -770,6 +811,33 @@ pub fn multi_overflow(_args: &[String]) -> String {
             }
         }
     }
+    // members that take no row (finished and cleared with a live handle, or never drawn) do not count against the height
+    for height in 1u16..=3 {
+        for extra in 1usize..=3 {
+            for kind in 0..2 {
+                let term = InMemoryTerm::new(height, 40);
+                let mp = MultiProgress::with_draw_target(ProgressDrawTarget::term_like(Box::new(term.clone())));
+                let k = height as usize + extra;
+                let ghosts: Vec<ProgressBar> = (0..k).map(|i| {
+                    let pb = mp.add(ProgressBar::new(10));
+                    pb.set_style(ProgressStyle::with_template(&format!("g{} {{pos}}", i)).unwrap());
+                    if kind == 0 { pb.tick(); pb.finish_and_clear(); }
+                    pb
+                }).collect();
+                let live = mp.add(ProgressBar::new(10));
+                live.set_style(ProgressStyle::with_template("live {pos}/{len}").unwrap());
+                live.tick();
+                live.inc(1);
+                tried += 1;
+                let hist = vec![format!("{}x40 terminal; {} members that take no row ({}), then a live bar", height, k, if kind == 0 { "ticked, then finish_and_clear, handles alive" } else { "added, never drawn" }), "live.tick(); live.inc(1)".to_string()];
+                let (want, got) = ("live 1/10".to_string(), term.contents());
+                drop(ghosts);
+                if got != want {
+                    return report("C19 only bars that take rows count against the terminal height: a bar that fits is painted", &hist, &want, &got, "multi_overflow");
+                }
+            }
+        }
+    }
     // bars of different heights: painting stops at the FIRST line that does not fit, a later shorter one is not painted instead
     for height in 2u16..=5 {
         for kinds in [&[0usize, 2, 2, 0][..], &[2, 0], &[0, 2, 0], &[2, 2, 0], &[0, 0, 2, 0], &[1, 2, 0], &[3]] {
@@ -812,6 +880,56 @@ pub fn multi_overflow(_args: &[String]) -> String {
                 let got = term.contents();
                 if got != want {
                     return report("C19 only the LEADING bar lines that fit are painted: painting stops at the first line that does not fit", &hist, &want, &got, "multi_overflow");
+                }
+            }
+        }
+    }
+    format!("{{\"found\": false, \"tried\": {}}}", tried)
+}
+
+/// C02 / C19: remove() next to finished-and-dropped bars.
+pub fn multi_remove(_args: &[String]) -> String {
+    std::panic::set_hook(Box::new(|_| {}));
+    let mut tried = 0u64;
+    let mkb = |mp: &MultiProgress, n: &str| { let pb = mp.add(ProgressBar::new(10)); pb.set_style(ProgressStyle::with_template("{msg} {pos}/{len}").unwrap()); pb.set_message(n.to_string()); pb.tick(); pb };
+    // a finished and dropped bar that did not fit appears once the bars above it are removed
+    {
+        let term = InMemoryTerm::new(3, W as u16);
+        let mp = MultiProgress::with_draw_target(ProgressDrawTarget::term_like(Box::new(term.clone())));
+        let (a, b, c, d) = (mkb(&mp, "a"), mkb(&mp, "b"), mkb(&mp, "c"), mkb(&mp, "d"));
+        d.finish();
+        drop(d);
+        mp.remove(&a); mp.remove(&b); mp.remove(&c);
+        let _e = mkb(&mp, "e");
+        tried += 1;
+        let hist = vec!["3-row terminal; bars a b c d (d does not fit)".to_string(), "d.finish(); drop(d); mp.remove(a, b, c); add e; e.tick()".to_string()];
+        let (want, got) = ("d 10/10\ne 0/10".to_string(), term.contents());
+        if got != want {
+            return report("C19/C02 a finished bar that did not fit appears as soon as there is room, and the rows of the removed bars are erased", &hist, &want, &got, "multi_remove");
+        }
+    }
+    // three painted bars; one is finished and dropped, another one removed, the third ticks
+    for f in 0..3usize {
+        for r in 0..3usize {
+            if f == r { continue; }
+            for remove_first in [false, true] {
+                let term = InMemoryTerm::new(H, W as u16);
+                let mp = MultiProgress::with_draw_target(ProgressDrawTarget::term_like(Box::new(term.clone())));
+                let names = ["a", "b", "c"];
+                let mut bars: Vec<Option<ProgressBar>> = names.iter().map(|n| Some(mkb(&mp, n))).collect();
+                let mut hist = vec!["bars a b c, all painted".to_string()];
+                let live = 3 - f - r;
+                let fin = |bars: &mut Vec<Option<ProgressBar>>, hist: &mut Vec<String>| { bars[f].as_ref().unwrap().finish(); bars[f] = None; hist.push(format!("finish and drop {}", names[f])); };
+                let rem = |bars: &mut Vec<Option<ProgressBar>>, hist: &mut Vec<String>| { mp.remove(bars[r].as_ref().unwrap()); hist.push(format!("mp.remove({})", names[r])); };
+                if remove_first { rem(&mut bars, &mut hist); fin(&mut bars, &mut hist); } else { fin(&mut bars, &mut hist); rem(&mut bars, &mut hist); }
+                bars[live].as_ref().unwrap().inc(1);
+                hist.push(format!("{}.inc(1)", names[live]));
+                tried += 1;
+                let want: Vec<String> = (0..3).filter(|i| *i != r).map(|i| if i == f { format!("{} 10/10", names[i]) } else { format!("{} 1/10", names[i]) }).collect();
+                let want = want.join("\n");
+                let got = term.contents();
+                if got != want {
+                    return report("C02 removing a bar makes its lines disappear without disturbing the others (a visibly finished and dropped bar keeps its row)", &hist, &want, &got, "multi_remove");
                 }
             }
         }
@@ -950,6 +1068,26 @@ pub fn multi_removed(_args: &[String]) -> String {
         hist.push("pb.set_message; inc; tick; println; reset; finish_with_message".into());
         tried += 1;
         let after = ops.load(Ordering::SeqCst);
+        // the removed bar's logical state evolves like that of a visible twin given the same calls
+        {
+            let twin = ProgressBar::with_draw_target(Some(10), ProgressDrawTarget::term_like(Box::new(InMemoryTerm::new(H, W as u16))));
+            twin.tick();
+            match pre { 1 => twin.finish(), 2 => twin.abandon_with_message("x"), 3 => twin.finish_and_clear(), _ => {} }
+            let rm = mp.add(ProgressBar::new(10));
+            rm.tick();
+            match pre { 1 => rm.finish(), 2 => rm.abandon_with_message("x"), 3 => rm.finish_and_clear(), _ => {} }
+            mp.remove(&rm);
+            let snap = |p: &ProgressBar| format!("pos {} len {:?} finished {} msg {:?}", p.position(), p.length(), p.is_finished(), p.message());
+            if snap(&rm) != snap(&twin) {
+                let h: Vec<&str> = hist.iter().map(String::as_str).collect();
+                return format!("{{\"found\": true, \"clause\": \"C06 a bar removed from its MultiProgress keeps the logical state of a visible bar given the same calls\", \"input\": {{\"history\": {}, \"removed\": {}, \"visible_twin\": {}}}, \"rerun\": \"replay multi_removed\"}}", crate::jlist(&h), crate::js(&snap(&rm)), crate::js(&snap(&twin)));
+            }
+            for p in [&rm, &twin] { p.inc(2); p.set_message("m"); }
+            if snap(&rm) != snap(&twin) {
+                let h: Vec<&str> = hist.iter().map(String::as_str).collect();
+                return format!("{{\"found\": true, \"clause\": \"C06 a bar removed from its MultiProgress keeps the logical state of a visible bar given the same calls (inc(2); set_message after the removal)\", \"input\": {{\"history\": {}, \"removed\": {}, \"visible_twin\": {}}}, \"rerun\": \"replay multi_removed\"}}", crate::jlist(&h), crate::js(&snap(&rm)), crate::js(&snap(&twin)));
+            }
+        }
         if after != before {
             let h: Vec<&str> = hist.iter().map(String::as_str).collect();
             return format!("{{\"found\": true, \"clause\": \"C06 a bar removed from its MultiProgress never invokes a terminal operation\", \"input\": {{\"history\": {}, \"frames_flushed_after_removal\": {}}}, \"rerun\": \"replay multi_removed\"}}", crate::jlist(&h), after - before);
